@@ -599,9 +599,19 @@ func parseMonthName(parts []string, monthPos int) (string, error) {
 	return CleanSpace(monthName), nil
 }
 
+// dateWordsPattern converts one of the DateWords constants into a regular
+// expression. The words have to be quoted because some of them contain a "."
+// which would otherwise match any character (and swallow the following space
+// or letter).
+func dateWordsPattern(words string) string {
+	return strings.Replace(regexp.QuoteMeta(words), `\|`, "|", -1)
+}
+
 var dateRegexp = regexp.MustCompile(
 	fmt.Sprintf(`(?i)^(%s|%s|%s)? ?(\d+ )?(\w+ )?(\d+)$`,
-		DateWordsAbout, DateWordsBefore, DateWordsAfter))
+		dateWordsPattern(DateWordsAbout),
+		dateWordsPattern(DateWordsBefore),
+		dateWordsPattern(DateWordsAfter)))
 
 func parseDateParts(dateString string, isEndOfRange bool) Date {
 	parts := dateRegexp.FindStringSubmatch(dateString)
